@@ -9,7 +9,7 @@
    (ow, gr) = (true, false); the fixes of D14 and D3 give (false, true). *)
 From Coq Require Import List NArith Bool String.
 From SV Require Import lib.Bytes lib.Tmpl gen.GenClaims model.Claims proofs.ClaimsProofs.
-From SV Require Import model.GlobRows proofs.ClaimsRegProofs proofs.GlobRowsProofs.
+From SV Require Import model.GlobRows proofs.ClaimsRegProofs proofs.GlobRowsProofs proofs.ClaimsInpProofs.
 Local Notation "x ++ y" := (List.app x y) (right associativity, at level 60) : list_scope.
 Import ListNotations.
 Open Scope N_scope.
@@ -604,4 +604,47 @@ Example C08_registrations_example :
   key_count w_B pat sa t = 2%nat /\ key_count w_B pat sb t = 1%nat /\ key_count w_A pat sa t = 0%nat /\
   List.length (visible t) = 3%nat /\
   List.length (rows (apply_op t (OReset w_B))) = 0%nat.
+Proof. vm_compute. repeat split; reflexivity. Qed.
+
+(* ---- 6. either order with INPUTS (_resolve_supply_file) ------------------------------------- *)
+(* Full statement: a step definition with an input versus a static file or a static tree, from any
+   state satisfying the invariant. By design no such pair is order dependent: an input that is
+   declared static later is adopted by the declaration (the loose node becomes the static claim),
+   an input under a later tree is adopted by the tree. *)
+Definition C08_define_input_commute_full (gm : str -> str -> bool) (ow gr : bool) : Prop :=
+  forall st c lbl p x,
+    Inv gm gr st -> is_static_or_tree x = true ->
+    accepted (step gm ow gr st x) = true ->
+    accepted (step gm ow gr st (define_inp1 c lbl p)) = true ->
+    both_equiv (run gm ow gr st [define_inp1 c lbl p; x]) (run gm ow gr st [x; define_inp1 c lbl p]).
+
+(* Proved part: versus ONE static file, any creators, any two paths (the same path included: the
+   adoption case), any `ow gr`, from ANY state, under the boolean side condition
+   `no_owner ow st p && no_owner ow st q` (no static tree owns either path): accepted in both orders
+   with the SAME final state. Missing for the full statement: paths under a tree (the input becomes
+   a claim of the tree), the tree request itself (adoption by register_static_tree), several inputs. *)
+Theorem C08_define_input_static_commute_partial :
+  forall gm ow gr st c lbl p c' q,
+    no_owner ow st p = true -> no_owner ow st q = true ->
+    accepted (step gm ow gr st (static1 c' q)) = true ->
+    accepted (step gm ow gr st (define_inp1 c lbl p)) = true ->
+    both (run gm ow gr st [define_inp1 c lbl p; static1 c' q])
+         (run gm ow gr st [static1 c' q; define_inp1 c lbl p]) /\
+    accepted (run gm ow gr st [define_inp1 c lbl p; static1 c' q]) = true.
+Proof. exact define_input_static_commute. Qed.
+
+(* the side condition is satisfiable, in the adoption case: step s1 (by B) reads a.txt, step A
+   declares a.txt static; both orders end in the same state, with the claim and the input edge *)
+Example C08_define_input_static_example :
+  let st := w_boot in
+  let d := define_inp1 (CStep w_B) (s2l "s1") w_atxt in
+  let s := static1 (CStep w_A) w_atxt in
+  no_owner false st w_atxt = true /\
+  accepted (step w_gm false false st d) = true /\ accepted (step w_gm false false st s) = true /\
+  run w_gm false false st [d; s] = run w_gm false false st [s; d] /\
+  match run w_gm false false st [d; s] with
+  | Ok st' => lookup w_atxt (claims st') = Some (mkClaim RStatic (CStep w_A)) /\ mem_str w_atxt (loose st') = false
+              /\ sinks st' = [(w_atxt, s2l "s1")] ++ sinks st
+  | Err _ => False
+  end.
 Proof. vm_compute. repeat split; reflexivity. Qed.
